@@ -6,16 +6,18 @@ cd "$(dirname "$0")"
 export CARGO_NET_OFFLINE=true
 mkdir -p build/ocaml evidence replays
 python3 tools/extract_consts.py >/dev/null 2>&1 || true
-( cd coq && coq_makefile -f _CoqProject -o Makefile >/dev/null && timeout 3000 make -j16 >../build/coq_build.log 2>&1 ) || { tail -50 build/coq_build.log; exit 1; }
+( cd coq && coq_makefile -f _CoqProject -o Makefile >/dev/null && timeout 3000 make -k -j16 >../build/coq_build.log 2>&1 ) || { tail -50 build/coq_build.log; exit 1; }
 python3 - <<'PY'
-import sys
+import os, sys, json
 sys.path.insert(0, '.')
 from tools import lib
-ok, log = lib.build_model_cli(force=True)
-print('model_cli:', 'ok' if ok else log)
-ok2, log2 = lib.build_harness('debug')
-print('harness debug:', 'ok' if ok2 else log2)
-ok3, log3 = lib.build_harness('release')
-print('harness release:', 'ok' if ok3 else log3)
-sys.exit(0 if ok and ok2 and ok3 else 1)
+bad = 0
+for c in json.load(open('MANIFEST.json'))['checks']:
+    pid = c['property_id']
+    ok, log = lib.build_model_cli(pid, force=True)
+    print(pid, 'model_cli:', 'ok' if ok else log)
+    ok2, log2 = lib.build_harness(pid, 'debug')
+    print(pid, 'harness debug:', 'ok' if ok2 else log2)
+    bad += (not ok) + (not ok2)
+sys.exit(1 if bad else 0)
 PY
